@@ -60,6 +60,13 @@ def run(repo, rep):
     from .c04 import check_cells
     check_cells(_Fsm(repo), rep, rule_eff='C14.J5', rule_next='C14.J5',
                 only=lambda e, s: e in (4, 8, 11, 12, 13, 14, 15, 16, 17) or 7 <= s <= 12)
+    rep.rule('C14.J6', 'A-ASSOCIATE-RJ and A-ABORT carry result / source / reason in the bytes PS3.8 9.3.4 and 9.3.8 assign to them, in '
+             'both directions (same analysis as C02.L1-L3 on these two classes): a peer that is not this library reads the triple '
+             'the application gave', 2)
+    from ..codec_rules import check_wire
+    from ..layout import LayoutExtractor
+    check_wire(LayoutExtractor(repo), rep, prefix='C14', only=('AAssociateRjPDU', 'AAbortPDU'),
+               rule_map={'L1': 'J6', 'L2': 'J6', 'L3': 'J6', 'L5': 'J6'})
     from ..provider_model import ProviderModel
     from ..fsm_model import FsmModel
     from .c03 import buffer_anchor, drain_order_problems
